@@ -16,6 +16,12 @@ CHECKS = {
                   'that the real result equals a transcription of the property text; counterexamples are replayed in a plain interpreter.',
              note='Trusted: CrossHair path exhaustion, the order-type abstraction of float values (code only compares them), the argmin contract stub, the oracle in xh/t_c03.py.tmpl.',
              ref='3/C03'),
+ 'C08': dict(engine='KX', technique='SMT (QF_BV) on the translated strip_seq_file_ext/strip_extensions for symbolic file names; CrossHair/z3-driven exhaustive case split of the real query callback / get_sequence_files / query_parse / query with recording stubs',
+             text='K: for every stem up to the length bound over all characters, every FASTA extension and optional .gz, the label is the stem.  X: for every batch (0..3 inputs with repeats, every order) '
+                  'and every input channel, there is exactly one result item per input, in order, labelled from the listed name (stored ID for signature files), whose signature was computed from that '
+                  'input\'s resolved path and whose classification received that input\'s distance row only.',
+             note='Trusted: z3/cvc5, kbmc string model (endswith, slicing, concatenation); CrossHair path exhaustion; the recording stubs.  Cores, progress display, gzip equivalence and real parsing are outside.',
+             ref='3/C08'),
  'C09': dict(engine='X', technique='symbolic execution (CrossHair/z3) of the real get_result_item/classify with numpy.argsort replaced by its documented contract (unstable kinds: any sorting permutation, chosen symbolically; stable kinds: the stable order) + replay on the real numpy',
              text='For 1..4 (quick) / 6 (thorough) references, every distance order type with ties, every tie order an unstable sort may return and every list length, CrossHair '
                   'confirms that the list is the (distance, reference order) prefix with exact distances and per-distance taxa and that its head is closest_match.  A contract-level '
